@@ -43,6 +43,29 @@ func wgBuild(pm *openfgav1.AuthorizationModel) *wgObs {
 	return wgBuildOn(graph.NewWeightedAuthorizationModelGraphBuilder(), pm)
 }
 
+// sparseMetadata returns the model as a hand-written JSON or protobuf model often has it: metadata entries only for the
+// relations that need one (those with a direct assignment); relations without one have no entry at all, and a type whose
+// relations need none has no relation metadata. Legal, and it must change nothing.
+func sparseMetadata(pm *openfgav1.AuthorizationModel) (*openfgav1.AuthorizationModel, bool) {
+	c := proto.Clone(pm).(*openfgav1.AuthorizationModel)
+	changed := false
+	for _, td := range c.GetTypeDefinitions() {
+		if td.GetMetadata() == nil {
+			continue
+		}
+		for name, rm := range td.GetMetadata().GetRelations() {
+			if len(rm.GetDirectlyRelatedUserTypes()) == 0 && rm.GetModule() == "" && rm.GetSourceInfo() == nil {
+				delete(td.Metadata.Relations, name)
+				changed = true
+			}
+		}
+		if len(td.Metadata.Relations) == 0 {
+			td.Metadata.Relations = nil
+		}
+	}
+	return c, changed
+}
+
 // wgBuildOn builds on the given (possibly used) builder value.
 func wgBuildOn(b *graph.WeightedAuthorizationModelGraphBuilder, pm *openfgav1.AuthorizationModel) *wgObs {
 	o := &wgObs{}
